@@ -53,6 +53,8 @@ func runC01(c *Ctx) {
 	hyperShortcutArgs(c, "R12")
 	hyperPushDownResets(c, "R12")
 	hyperOrderingConvention(c, "R7")
+	c.Rule("R13", "the client's automatic verification checks an answer against the history digest of the queried version's snapshot and the hyper digest of the current snapshot (per path, every ordering of the three versions)", 1)
+	snapshotPairing(c, "R13", c.P.MustMethod(pkgBalloon, "MembershipProof", "DigestVerify"))
 	// proofs hold copies of what they read from the cache (shared with C10.R6)
 	sub10 := newCtx(c.P, c.Prop, c.Tier)
 	runC10(sub10)
